@@ -26,6 +26,33 @@ static CryptoLog crypto_log;
 #endif
 static inline void model_fill(ByteString& out, size_t n) { out.resize(n); for (size_t i = 0; i < n && i < MODEL_OUT_MAX; i++) out[i] = nondet_uchar(); }
 
+#ifdef MODEL_SYM_IDENTITY
+// Functional model of a cipher for the wrap/unwrap kernels: CBC = the identity on the data (so that what SoftHSM feeds in and takes out is
+// visible), key wrap = a tagged copy.  Every init records mode / padding flag / IV / key bytes.  Calls may still fail nondeterministically.
+struct SymSeen { unsigned long inits, wraps, unwraps; int mode, wrapMode; bool padding; size_t ivLen, keyLen, inLen; unsigned char iv[16], key[4], in[40]; };
+static SymSeen sym_seen;
+enum { KW_TAG = 0xA6, KWP_TAG = 0xA7 };
+class ModelSym : public SymmetricAlgorithm {
+public:
+	size_t blockSize;
+	void see(const SymmetricKey* key, int mode, const ByteString& IV, bool padding) { sym_seen.inits++; sym_seen.mode = mode; sym_seen.padding = padding; sym_seen.ivLen = IV.size(); for (size_t i = 0; i < 16; i++) sym_seen.iv[i] = i < IV.size() ? IV.const_byte_str()[i] : 0; seeKey(key); }
+	void seeKey(const SymmetricKey* key) { sym_seen.keyLen = key->getKeyBits().size(); for (size_t i = 0; i < 4; i++) sym_seen.key[i] = i < sym_seen.keyLen ? key->getKeyBits().const_byte_str()[i] : 0; }
+	void seeIn(const ByteString& in) { sym_seen.inLen = in.size(); for (size_t i = 0; i < 40; i++) sym_seen.in[i] = i < in.size() ? in.const_byte_str()[i] : 0; }
+	virtual bool encryptInit(const SymmetricKey* key, const SymMode::Type mode, const ByteString& IV, bool padding, size_t counterBits, const ByteString& aad, size_t tagBytes) { crypto_log.calls++; crypto_log.initCalls++; see(key, mode, IV, padding); return nondet_bool(); }
+	virtual bool decryptInit(const SymmetricKey* key, const SymMode::Type mode, const ByteString& IV, bool padding, size_t counterBits, const ByteString& aad, size_t tagBytes) { crypto_log.calls++; crypto_log.initCalls++; see(key, mode, IV, padding); return nondet_bool(); }
+	virtual bool encryptUpdate(const ByteString& data, ByteString& out) { crypto_log.calls++; crypto_log.dataCalls++; seeIn(data); out = data; return nondet_bool(); }
+	virtual bool encryptFinal(ByteString& out) { crypto_log.calls++; crypto_log.dataCalls++; out.resize(0); return nondet_bool(); }
+	virtual bool decryptUpdate(const ByteString& data, ByteString& out) { crypto_log.calls++; crypto_log.dataCalls++; seeIn(data); out = data; return nondet_bool(); }
+	virtual bool decryptFinal(ByteString& out) { crypto_log.calls++; crypto_log.dataCalls++; out.resize(0); return nondet_bool(); }
+	virtual bool wrapKey(const SymmetricKey* key, const SymWrap::Type mode, const ByteString& in, ByteString& out)
+	{ crypto_log.calls++; crypto_log.dataCalls++; sym_seen.wraps++; sym_seen.wrapMode = mode; seeKey(key); seeIn(in); if (nondet_bool()) return false; out.resize(in.size() + 1); out[0] = mode == SymWrap::AES_KEYWRAP ? KW_TAG : KWP_TAG; for (size_t i = 0; i < in.size(); i++) out[i + 1] = in.const_byte_str()[i]; return true; }
+	virtual bool unwrapKey(const SymmetricKey* key, const SymWrap::Type mode, const ByteString& in, ByteString& out)
+	{ crypto_log.calls++; crypto_log.dataCalls++; sym_seen.unwraps++; sym_seen.wrapMode = mode; seeKey(key); if (nondet_bool() || in.size() == 0 || in.const_byte_str()[0] != (mode == SymWrap::AES_KEYWRAP ? KW_TAG : KWP_TAG)) return false; out.resize(in.size() - 1); for (size_t i = 1; i < in.size(); i++) out[i - 1] = in.const_byte_str()[i]; return true; }
+	virtual void recycleKey(SymmetricKey* toRecycle) { crypto_log.recycled++; }
+	virtual size_t getBlockSize() const { return blockSize; }
+	virtual bool checkMaximumBytes(unsigned long bytes) { return nondet_bool(); }
+};
+#else
 class ModelSym : public SymmetricAlgorithm {
 public:
 	size_t blockSize;
@@ -43,6 +70,7 @@ public:
 	virtual size_t getBlockSize() const { return blockSize; }
 	virtual bool checkMaximumBytes(unsigned long bytes) { return nondet_bool(); }
 };
+#endif
 
 class ModelPub : public PublicKey {
 public:
@@ -66,6 +94,7 @@ public:
 };
 static ModelPub model_pub; static ModelPriv model_priv;
 
+static AsymmetricKeyPair* model_keypair;   // handed out by generateKeyPair when a harness installs one (default: generation fails)
 class ModelAsym : public AsymmetricAlgorithm {
 public:
 	virtual bool sign(PrivateKey* k, const ByteString& d, ByteString& sig, const AsymMech::Type m, const void* p, const size_t pl) { crypto_log.calls++; crypto_log.dataCalls++; model_fill(sig, nondet_ulong() % (MODEL_OUT_MAX + 1)); return nondet_bool(); }
@@ -78,7 +107,7 @@ public:
 	virtual bool verifyFinal(const ByteString& sig) { crypto_log.calls++; crypto_log.dataCalls++; return nondet_bool(); }
 	virtual bool encrypt(PublicKey* k, const ByteString& d, ByteString& e, const AsymMech::Type pad) { crypto_log.calls++; crypto_log.dataCalls++; model_fill(e, nondet_ulong() % (MODEL_OUT_MAX + 1)); return nondet_bool(); }
 	virtual bool decrypt(PrivateKey* k, const ByteString& e, ByteString& d, const AsymMech::Type pad) { crypto_log.calls++; crypto_log.dataCalls++; model_fill(d, nondet_ulong() % (MODEL_OUT_MAX + 1)); return nondet_bool(); }
-	virtual bool generateKeyPair(AsymmetricKeyPair** pp, AsymmetricParameters* p, RNG* rng) { crypto_log.calls++; return false; }
+	virtual bool generateKeyPair(AsymmetricKeyPair** pp, AsymmetricParameters* p, RNG* rng) { crypto_log.calls++; if (model_keypair && nondet_bool()) { *pp = model_keypair; return true; } return false; }
 	virtual unsigned long getMinKeySize() { return minKey; }
 	virtual unsigned long getMaxKeySize() { return maxKey; }
 	virtual bool deriveKey(SymmetricKey** pp, PublicKey* pub, PrivateKey* priv) { crypto_log.calls++; return false; }
@@ -119,9 +148,10 @@ public:
 	size_t hashSize;
 };
 
+static unsigned char model_rng_last[32]; static size_t model_rng_len; static unsigned long model_rng_calls;   // ghost copy of the bytes handed out last
 class ModelRNG : public RNG {
 public:
-	virtual bool generateRandom(ByteString& data, const size_t len) { data.resize(len); for (size_t i = 0; i < len; i++) data[i] = nondet_uchar(); return true; }
+	virtual bool generateRandom(ByteString& data, const size_t len) { data.resize(len); for (size_t i = 0; i < len; i++) { data[i] = nondet_uchar(); if (i < sizeof(model_rng_last)) model_rng_last[i] = data[i]; } model_rng_len = len; model_rng_calls++; return true; }
 	virtual void seed(ByteString& seedData) {}
 };
 
